@@ -414,7 +414,7 @@ var assertTable = map[string]assertRow{
 	"funcGroupBy:rs[len(rs)-1].([]any)":        {"rs is fresh and only []any values are appended to it (ownership engine O4)", ""},
 	"funcSetpathWithAllocator:args[2].(allocator)": {"not registered in internalFuncs; called only from the hand-assembled _assign/_modify lists, which pass the value produced by funcAllocator (R-C02-bc)", "allocnative"},
 	"funcDelpathsWithAllocator:args[1].(allocator)": {"same", "allocnative"},
-	"funcTranspose:vs.([]any)":                 {"the preceding loop returned an error unless every element is []any", ""},
+	"funcTranspose:vs.([]any)":                 {"an earlier loop over the same slice returned an error unless every element is []any", "rangechecked"},
 	"compileRegexp:r.(*regexp.Regexp)":         {"the cache only ever stores *regexp.Regexp", "syncmapstore"},
 	"cli.runInternal:v.(string)":               {"opts.JSONArgs elements are nil or string (flag parser fills them from argv)", ""},
 	"slurpRawInputIter.Next:v.(string)":        {"the wrapped rawInputIter yields only strings and errors; an error is returned by a dominating `v.(error)` test", "errorfirst"},
@@ -492,6 +492,14 @@ func ruleC08Assert(c *Ctx, r *Rep) {
 					return true
 				}
 				seenRows[key] = true
+				if row.check == "rangechecked" {
+					if why := checkRangeChecked(c, info, fd, ta); why != "" {
+						r.Bad(key, ta.Pos(), "reviewed assertion %s relies on: %s — but the supporting fact no longer holds: %s", text, row.reason, why)
+						return true
+					}
+					r.OK(key, ta.Pos(), "reviewed, supporting fact `rangechecked` re-checked: %s", row.reason)
+					return true
+				}
 				if row.check == "errorfirst" {
 					if why := checkErrorFirst(c, info, fd, ta); why != "" {
 						r.Bad(key, ta.Pos(), "reviewed assertion %s relies on: %s — but the supporting fact no longer holds: %s (an unreadable file under -R -s would panic with an interface conversion instead of exiting 5)", text, row.reason, why)
@@ -518,6 +526,75 @@ func ruleC08Assert(c *Ctx, r *Rep) {
 			r.Info("stale:"+k, token.NoPos, "reviewed row no longer matches any assertion")
 		}
 	}
+}
+
+// checkRangeChecked: the operand of X.(T) is the element variable of `range S`, and an earlier `range S` over the same slice
+// object asserts its element to T in comma-ok form and returns when the assertion fails.
+func checkRangeChecked(c *Ctx, info *types.Info, fd *ast.FuncDecl, ta *ast.TypeAssertExpr) string {
+	xid, ok := unparen(ta.X).(*ast.Ident)
+	if !ok {
+		return "the operand is not a variable"
+	}
+	obj := info.ObjectOf(xid)
+	want := types.TypeString(info.TypeOf(ta.Type), nil)
+	// the range statement that binds the operand
+	var mine *ast.RangeStmt
+	ast.Inspect(fd.Body, func(q ast.Node) bool {
+		if rs, ok := q.(*ast.RangeStmt); ok && rs.Value != nil {
+			if id, ok := rs.Value.(*ast.Ident); ok && info.ObjectOf(id) == obj {
+				mine = rs
+			}
+		}
+		return true
+	})
+	if mine == nil {
+		return "the operand is not the element variable of a range statement"
+	}
+	sid, ok := unparen(mine.X).(*ast.Ident)
+	if !ok {
+		return "the ranged expression is not a variable"
+	}
+	sobj := info.ObjectOf(sid)
+	found := false
+	ast.Inspect(fd.Body, func(q ast.Node) bool {
+		rs, ok := q.(*ast.RangeStmt)
+		if !ok || rs == mine || rs.End() > mine.Pos() || rs.Value == nil {
+			return true
+		}
+		xs, ok := unparen(rs.X).(*ast.Ident)
+		if !ok || info.ObjectOf(xs) != sobj {
+			return true
+		}
+		vid, ok := rs.Value.(*ast.Ident)
+		if !ok {
+			return true
+		}
+		vobj := info.ObjectOf(vid)
+		// v2, ok := v.(T); if !ok { return … }
+		for i, st := range rs.Body.List {
+			as, ok := st.(*ast.AssignStmt)
+			if !ok || len(as.Lhs) != 2 || len(as.Rhs) != 1 {
+				continue
+			}
+			t2, ok := unparen(as.Rhs[0]).(*ast.TypeAssertExpr)
+			if !ok || t2.Type == nil || types.TypeString(info.TypeOf(t2.Type), nil) != want {
+				continue
+			}
+			if id2, ok := unparen(t2.X).(*ast.Ident); !ok || info.ObjectOf(id2) != vobj {
+				continue
+			}
+			if i+1 < len(rs.Body.List) {
+				if ifs, ok := rs.Body.List[i+1].(*ast.IfStmt); ok && strings.HasPrefix(c.Src(ifs.Cond), "!") && endsInReturn(ifs.Body) {
+					found = true
+				}
+			}
+		}
+		return true
+	})
+	if !found {
+		return "no earlier loop over " + sid.Name + " asserts its elements to " + want + " and returns on failure"
+	}
+	return ""
 }
 
 // checkErrorFirst: the operand X of the unchecked assertion X.(T) was tested with `X.(error)` by an earlier statement of an
